@@ -669,10 +669,21 @@ func (w *world) opSwitch(ns *nodeState, ci int, o Op) *hx.Failure {
 		}
 		target = known[1+((o.V%(len(known)-1))+(len(known)-1))%(len(known)-1)]
 	}
-	w.info.tracef("step %d node %d (active v%d): SetActiveSchemaVersion(v%d %s)", w.step, ns.idx, nc.active, target, w.verDesc(ci, target))
-	err := ns.n.DB.SetActiveSchemaVersion(ns.n.Ctx, cm.vers[target].id)
-	if err != nil {
-		return hx.Failf("C19/switch/rejected", "node %d: SetActiveSchemaVersion(v%d) failed: %v", ns.idx, target, err)
+	if o.Def && target != nc.active {
+		// the same switch through the collection-patch route
+		patch := fmt.Sprintf(`[{"op": "replace", "path": "/%s/IsActive", "value": false}, {"op": "replace", "path": "/%s/IsActive", "value": true}]`,
+			cm.vers[nc.active].id, cm.vers[target].id)
+		w.info.tracef("step %d node %d (active v%d): PatchCollection %s", w.step, ns.idx, nc.active, patch)
+		w.info.flag("switch-via-patch-collection")
+		if err := ns.n.DB.PatchCollection(ns.n.Ctx, patch); err != nil {
+			return hx.Failf("C19/switch/rejected-patch-collection", "node %d: PatchCollection %s failed: %v", ns.idx, patch, err)
+		}
+	} else {
+		w.info.tracef("step %d node %d (active v%d): SetActiveSchemaVersion(v%d %s)", w.step, ns.idx, nc.active, target, w.verDesc(ci, target))
+		err := ns.n.DB.SetActiveSchemaVersion(ns.n.Ctx, cm.vers[target].id)
+		if err != nil {
+			return hx.Failf("C19/switch/rejected", "node %d: SetActiveSchemaVersion(v%d) failed: %v", ns.idx, target, err)
+		}
 	}
 	prev := nc.active
 	ctx := opctx{kind: "switch", ci: ci, target: target, prevActive: prev, expectNew: -1}
